@@ -16,6 +16,8 @@ import OmplModel.Proofs.PathOpsRound6
 import OmplModel.Proofs.PathOpsGeom
 import OmplModel.Proofs.PathOpsRopeF173
 import OmplModel.Proofs.PathOpsShortcutObj
+import OmplModel.Proofs.PathOpsRopeCost
+import OmplModel.Proofs.PathOpsDensifyLen
 /-!
 # C17 — path post-processing preserves endpoints, validity and never worsens cost
 
@@ -984,6 +986,58 @@ example : PsCostStepD (addObj fun a b : Nat => (a - b) + (b - a)) .afterPos0 (fu
     ⟨by decide, fun h => Bool.noConfusion h, fun _ => ⟨by decide, by decide⟩⟩
     ⟨by decide, fun _ => by decide, fun h => Bool.noConfusion h⟩ rfl (by decide) (by decide) (by decide)
 
+/-- **never longer in a metric space, the WHOLE routine, whatever its objective** (drops the hypothesis `pos1 + 1 < size` of the
+round-1 family `pshort_splice_never_longer` / `pshort_never_longer`, whose `PsStep` cannot describe a splice that ends at the
+LAST vertex): `d` obeys the triangle inequality and interpolated states lie on geodesics (`d a s + d s b = d a b`) ⇒
+`length(out) ≤ length(path)` for every run of `partialShortcutPathObj` — every objective (the cost test is not used), both `start`
+variants, every `checkMotion`, every draw stream and bound. -/
+theorem pshort_whole_never_longer {γ κ : Type} [AddCommMonoid κ] [PartialOrder κ] [IsOrderedAddMonoid κ]
+    {E : PsEnvO σ γ} {start : AlongStart} (d : σ → σ → κ) (tri : ∀ a b c, d a c ≤ d a b + d b c)
+    (hgeo : ∀ a b t, d a (E.interp a b t) + d (E.interp a b t) b = d a b)
+    {u : Nat → Float} {ms me : Nat} {rr snap : Float} {path out : List σ} {r : Bool}
+    (h : partialShortcutPathObj E start u ms me rr snap path = some (out, r)) :
+    pathLen d out ≤ pathLen d path :=
+  ((partialShortcutPathObj_steps (cut := fun a b s => d a s + d s b = d a b) hgeo h).toD).pathLen_le_tri tri
+
+/-- the same for the default-objective model `partialShortcutPathOrd` (the one `pshort` runs in lock-step) -/
+theorem pshort_whole_never_longer_default {κ : Type} [AddCommMonoid κ] [PartialOrder κ] [IsOrderedAddMonoid κ]
+    {E : PsEnv σ} (d : σ → σ → κ) (tri : ∀ a b c, d a c ≤ d a b + d b c)
+    (hgeo : ∀ a b t, d a (E.interp a b t) + d (E.interp a b t) b = d a b)
+    {u : Nat → Float} {ms me : Nat} {rr snap : Float} {path out : List σ} {r : Bool}
+    (h : partialShortcutPathOrd E u ms me rr snap path = some (out, r)) :
+    pathLen d out ≤ pathLen d path :=
+  (partialShortcutPathOrd_steps (cut := fun a b s => d a s + d s b = d a b) hgeo h).pathLen_le_tri tri
+
+/-- non-vacuity: a directed step that ends at the LAST vertex (both samples snapped: vertices 0 and 3 of a zigzag) -/
+example : PsCutStepD (fun _ _ : Nat => true) (fun _ _ _ => False) [0, 7, 3, 10] [0, 10] :=
+  .mk [0, 7, 3, 10] 0 3 true true 0 10 [0, 10] (by decide) (by decide)
+    ⟨by decide, fun _ => by decide, fun h => Bool.noConfusion h⟩
+    ⟨by decide, fun _ => by decide, fun h => Bool.noConfusion h⟩ rfl (by decide)
+
+/-- **ropeShortcutPath never returns a path worse under its own objective** (whole routine as coded in the tree, every `checkMotion`,
+every fuel / path): additive objective on an ordered additive monoid — identity 0, combine `+`, `subtractCosts (x + y) x = y`,
+`isCostBetterThan a b → a ≤ b` —, the states a motion is densified into are cost-additive (`geo`), and the shortcut is priced by the
+pieces it is densified into (`hchord`: the tree since fix F173).  NO triangle inequality (compare `rope_never_longer`): a chord may
+be costlier than the sub-path; the routine's own comparison `shortcutCost < costs[j] - costs[i]` carries the claim.  Runs in
+lock-step under work / lin / wreg / toll / step (`ropeo`). -/
+theorem rope_never_worse_own_objective {κ : Type} [AddCommMonoid κ] [PartialOrder κ] [IsOrderedAddMonoid κ]
+    (E : RopeEnv σ κ) (hid : E.identity = 0) (hcomb : ∀ a b, E.combine a b = a + b)
+    (hsub : ∀ x y, E.subtract (x + y) x = y) (hlink : ∀ a b, E.better a b = true → a ≤ b)
+    (geo : ∀ a b n, pathLen E.motion (a :: (inters E a b n ++ [b])) = E.motion a b)
+    (hchord : ∀ a b, E.chord a b = pathLen E.motion (a :: (inters E a b (E.nInter a b) ++ [b])))
+    {fuel : Nat} {path out : List σ} {r oob fo : Bool}
+    (h : ropeShortcutPath E fuel path = some (out, r, oob, fo)) :
+    pathLen E.motion out ≤ pathLen E.motion path :=
+  rope_never_worse_additive E hid hcomb hsub hlink geo hchord h
+
+/-- non-vacuity: a non-metric additive cost on three states (going 0 → 2 directly costs 30, via 1 only 20): the chord is valid but
+the routine's cost test rejects it, the path is returned unchanged -/
+example : ropeShortcutPath (σ := Nat) (γ := Nat)
+    { cm := fun _ _ => true, nInter := fun _ _ => 0, interpK := fun a _ _ _ => a, identity := 0, combine := fun a b => a + b,
+      motion := fun a b => if (a, b) = (0, 2) then 30 else 10, subtract := fun a b => a - b,
+      better := fun a b => decide (a < b), eqCost := 0 } 10 [0, 1, 2] = some ([0, 1, 2], false, false, false) := by
+  decide
+
 /-- the states of the witness below: vertices 0 1 2 3, cut points 4 (inside 0–1) and 5 (inside 2–3); every segment costs 10, the
 cuts are at half cost, the chord 4 → 5 costs 25 (it crosses an expensive region), every other pair 100 -/
 def dblCost (a b : Nat) : Nat :=
@@ -1004,5 +1058,25 @@ theorem pshort_along_from_pos0_accepts_worse_fails :
     psAlongPath (addObj dblCost) .afterPos0 [0, 1, 2, 3] 0 false 4 2 false 5 = some 20 ∧
     (addObj dblCost).better 20 (dblCost 4 5) = true := by
   decide
+
+/-- **`interpolate()` leaves the length unchanged**: the states put on a motion are on a geodesic (`geo`) ⇒ same `pathLen`, for every
+`validSegmentCount` oracle (the `n = 0` wrap-around included) and every path -/
+theorem interpolate_length_eq {κ : Type} [AddCommMonoid κ] (d : σ → σ → κ) (vsc : σ → σ → Nat) (frac : σ → σ → Nat → Nat → σ)
+    (geo : ∀ a b cnt, pathLen d (a :: (motionStates frac a b cnt ++ [b])) = d a b) (l : List σ) :
+    pathLen d (interpolateAll vsc frac l) = pathLen d l :=
+  interpolateAll_pathLen d vsc frac geo l
+
+/-- **`interpolate(count)` leaves the length unchanged** (same hypothesis), whatever the rounding function `approx`, the segment lengths
+and the remaining-length bookkeeping return, for every requested count and every path -/
+theorem interpolateCount_length_eq {α κ : Type} [AddCommMonoid κ] (d : σ → σ → κ) (segLen : σ → σ → α) (sub : α → α → α)
+    (approx : Int → α → α → Int) (frac : σ → σ → Nat → Nat → σ)
+    (geo : ∀ a b cnt, pathLen d (a :: (motionStates frac a b cnt ++ [b])) = d a b) (len : α) (n : Nat) (l : List σ) :
+    pathLen d (interpolateCount segLen sub approx frac len n l) = pathLen d l :=
+  interpolateCount_pathLen d segLen sub approx frac geo len n l
+
+/-- non-vacuity: points on a line with `frac a b j count = a + (b - a) * j / count`: 3 states, 7 requested, length 20 before and after -/
+example : pathLen (fun a b : Nat => (a - b) + (b - a))
+    (interpolateCount (fun a b : Nat => (a - b) + (b - a)) (fun a b => a - b) (fun c s r => (c * s / r : Int))
+      (fun a b j c => a + (b - a) * j / c) 20 7 [0, 10, 20]) = 20 := by decide
 
 end OmplModel.Props.C17
